@@ -23,3 +23,5 @@ Theorem gate_D06_covered : True. Proof. pose proof D06_covered. exact I. Qed.
 Print Assumptions gate_D06_covered.
 Theorem gate_D04_history : True. Proof. pose proof D04_history. exact I. Qed.
 Print Assumptions gate_D04_history.
+Theorem gate_D07_tcp_always_answered : True. Proof. pose proof D07_tcp_always_answered. exact I. Qed.
+Print Assumptions gate_D07_tcp_always_answered.
